@@ -1,6 +1,8 @@
 import PycsepVerif.Proto
 import PycsepVerif.Model.Gridding
 import PycsepVerif.Model.GriddingExt
+import PycsepVerif.Model.GriddingSeq
+import PycsepVerif.Generated
 import PycsepVerif.Drive.C01
 /-!
   Driver ops of property C03.
@@ -20,6 +22,14 @@ import PycsepVerif.Drive.C01
    → `sidx:<E|list> midx:<list, -1 = below> df:<E:kind | rid!mid | rid!none>`
   `c03_cartesian <xs> <ys> <is> <js> <flags> <data rows ;-separated>`
    → bounding-box array of the per-polygon row sums, rows `;`-separated, `n` = nan
+
+  call sequences and forecast accumulation (Model/GriddingSeq.lean):
+  `c03_seqc <xs> <ys> <is> <js> <flags> <lons> <lats> <mags> <BOUND> <CALLS>`   /   `c03_seqq <b0> <b1> <b2> <b3> <lons> …`
+     BOUND `noregion | absent | unset | b:<edges>`; CALLS `;`-separated `mc:<edges|none>:<0|1>` `smc:<edges|none>` `midx` `sc` `sep`
+   → per call, `|`-separated: `v:<counts>` `vb:<edges>!<counts>` `m:<rows>` `i:<idx>` `E:value` `E:config`, then ` state:<BOUND>`
+     (the default bins are `Generated.csepMwBins`, re-extracted from csep/utils/constants.py on every run)
+  `c03_expc <xs> <ys> <is> <js> <flags> <lons> <lats> <mags> <edges> <sizes>`   /   `c03_expq <b0> <b1> <b2> <b3> <lons> …`
+     the events of all catalogs concatenated, `sizes` = events per catalog → `E` or the summed rows
 -/
 namespace Drive.C03
 open Proto Gridding
@@ -60,7 +70,83 @@ def parseEdgesOpt? (s : String) : Option (Option (List Rat)) :=
 
 def showCartRat (o : Option Rat) : String := match o with | none => "n" | some v => showRat v
 
+def parseBound? (s : String) : Option Bound :=
+  if s = "noregion" then some .noRegion else if s = "absent" then some .absent else if s = "unset" then some .unset
+  else match s.splitOn ":" with
+    | ["b", e] => (parseList? parseRat? e).map .bins
+    | _ => none
+
+def parseGCall? (s : String) : Option GCall :=
+  match s.splitOn ":" with
+  | ["mc", e, rb] => do
+      let e ← parseEdgesOpt? e
+      let rb ← (if rb = "1" then some true else if rb = "0" then some false else none)
+      some (.mc e rb)
+  | ["smc", e] => (parseEdgesOpt? e).map .smc
+  | ["midx"] => some .midx
+  | ["sc"] => some .sc
+  | ["sep"] => some .sep
+  | _ => none
+
+def showBound : Bound → String
+  | .noRegion => "noregion" | .absent => "absent" | .unset => "unset"
+  | .bins e => "b:" ++ showList showRat e
+
+def showGOut : GOut → String
+  | .vec v => "v:" ++ showNats v
+  | .vecBins e v => "vb:" ++ showList showRat e ++ "!" ++ showNats v
+  | .mat M => "m:" ++ showRows M
+  | .idx l => "i:" ++ showIdx l
+  | .err .value => "E:value"
+  | .err .config => "E:config"
+
+def seqOut (quad : Bool) (ncell : Nat) (locs : List (Option Nat)) (mags : List Rat) (b : Bound) (calls : List GCall) : String :=
+  let r := runCalls quad ncell Generated.csepMwBins (locs.zip mags) b calls
+  "|".intercalate (r.1.map showGOut) ++ " state:" ++ showBound r.2
+
+def splitSizes {α} : List Nat → List α → List (List α)
+  | [], _ => []
+  | n :: ns, l => l.take n :: splitSizes ns (l.drop n)
+
+def expOut (quad : Bool) (ncell nbin : Nat) (evs : List Ev) (sizes : List Nat) : String :=
+  match splitSizes sizes evs with
+  | [] => "bad-op"
+  | c :: cs => showE showRows (expectedCounts quad ncell nbin c cs)
+
 def handle : List String → Option String
+  | ["c03_seqc", xs, ys, is, js, fl, lons, lats, mags, bound, calls] => some (
+      match parseList? parseRat? xs, parseList? parseRat? ys, parseList? Drive.C01.parseNat? is,
+            parseList? Drive.C01.parseNat? js, parseList? Drive.C01.parseNat? fl, parseList? parseRat? lons,
+            parseList? parseRat? lats, parseList? parseRat? mags, parseBound? bound, (calls.splitOn ";").mapM parseGCall? with
+      | some xs, some ys, some is, some js, some fl, some lons, some lats, some mags, some b, some calls =>
+        let R := Region.Region.new xs ys (Drive.C01.topOf xs) (Drive.C01.topOf ys) (Drive.C01.mkCells is js fl)
+        seqOut false R.cells.length ((lons.zip lats).map fun p => R.cellOf p) mags b calls
+      | _, _, _, _, _, _, _, _, _, _ => "bad-op")
+  | ["c03_seqq", b0, b1, b2, b3, lons, lats, mags, bound, calls] => some (
+      match parseList? parseRat? b0, parseList? parseRat? b1, parseList? parseRat? b2, parseList? parseRat? b3,
+            parseList? parseRat? lons, parseList? parseRat? lats, parseList? parseRat? mags, parseBound? bound,
+            (calls.splitOn ";").mapM parseGCall? with
+      | some b0, some b1, some b2, some b3, some lons, some lats, some mags, some b, some calls =>
+        let bounds := zip4 b0 b1 b2 b3
+        seqOut true bounds.length ((lons.zip lats).map fun p => qtFind bounds p) mags b calls
+      | _, _, _, _, _, _, _, _, _ => "bad-op")
+  | ["c03_expc", xs, ys, is, js, fl, lons, lats, mags, edges, sizes] => some (
+      match parseList? parseRat? xs, parseList? parseRat? ys, parseList? Drive.C01.parseNat? is,
+            parseList? Drive.C01.parseNat? js, parseList? Drive.C01.parseNat? fl, parseList? parseRat? lons,
+            parseList? parseRat? lats, parseList? parseRat? mags, parseList? parseRat? edges,
+            parseList? Drive.C01.parseNat? sizes with
+      | some xs, some ys, some is, some js, some fl, some lons, some lats, some mags, some edges, some sizes =>
+        let R := Region.Region.new xs ys (Drive.C01.topOf xs) (Drive.C01.topOf ys) (Drive.C01.mkCells is js fl)
+        expOut false R.cells.length edges.length (evsCart R edges (zip3 lons lats mags)) sizes
+      | _, _, _, _, _, _, _, _, _, _ => "bad-op")
+  | ["c03_expq", b0, b1, b2, b3, lons, lats, mags, edges, sizes] => some (
+      match parseList? parseRat? b0, parseList? parseRat? b1, parseList? parseRat? b2, parseList? parseRat? b3,
+            parseList? parseRat? lons, parseList? parseRat? lats, parseList? parseRat? mags,
+            parseList? parseRat? edges, parseList? Drive.C01.parseNat? sizes with
+      | some b0, some b1, some b2, some b3, some lons, some lats, some mags, some edges, some sizes =>
+        let bounds := zip4 b0 b1 b2 b3
+        expOut true bounds.length edges.length (evsQuad bounds edges (zip3 lons lats mags)) sizes
+      | _, _, _, _, _, _, _, _, _ => "bad-op")
   | ["c03_qthelpers", b0, b1, b2, b3, lons, lats, mags, edges, minEdge] => some (
       match parseList? parseRat? b0, parseList? parseRat? b1, parseList? parseRat? b2, parseList? parseRat? b3,
             parseList? parseRat? lons, parseList? parseRat? lats, parseList? parseRat? mags,
